@@ -26,6 +26,11 @@ block into a term of a monad M (default `Except`), so that a call which raises e
   a and b / a or b     whose LATER operands are monadic keep Python's short circuit: the test becomes a monadic Boolean
                        `(if a then (binds of b; ok b) else ok false)`; as the value of `return` / in an `if` test it
                        is bound like any monadic operand.
+  comprehensions       `[E for t in IT if C]` whose element `E` may raise -> `mapME (fun it => <binds of E; ok E>) IT`
+                       (`monad["mapm"]`, monadic: the first failure ends it); `IT` is evaluated once, in front of the
+                       statement (it may be monadic itself: `range(...)` with a zero step); `C` must be pure.  This is
+                       the canonical form of the loop `acc = []; for t in IT: acc.append(E)` (lemma
+                       `forLoopE_append` of the vocabulary), so loop <-> comprehension rewrites keep the obligations.
   effect loops         with `monad["effects"]` a loop whose body only runs statements for their effect (no variable of
                        the scope is rebound) is translated with the unit state `()`.
   nested def           `def inner(a, b): …` -> `let inner0 : <closures[inner]> := fun a0 b0 => <body>` (a closure over
@@ -44,7 +49,7 @@ import ast
 from .py2lean2 import Rules2, Translator2, _Ctx, _proj, _tuple, Untranslatable, source_ast, match, _pat  # noqa: F401
 
 MONAD_DEFAULT = dict(ok=".ok ({e})", bind="({m}).bind fun {x} =>\n{k}", loop="forLoopE", reduce="reduceE",
-                     tryexc="tryExcept")
+                     tryexc="tryExcept", mapm="mapME")
 
 
 class Rules2X(Rules2):
@@ -140,6 +145,35 @@ class Translator2X(Translator2):
             for m, x in reversed(pend):
                 body = "(" + self.r.monad["bind"].format(m=m, x=x, k=body).replace("\n", " ") + ")"
             return "(%s (fun %s => %s) %s %s)" % (self.r.monad["reduce"], " ".join(names), body, xs, init), "bind"
+        if (isinstance(node, ast.ListComp) and self.r.monad is not None and not self._nohoist and self._frames
+                and len(node.generators) == 1 and not node.generators[0].is_async):
+            g = node.generators[0]
+            it = self.pure(g.iter, scope)                      # evaluated once, before the elements (may be hoisted)
+            item = self.fresh("it", scope)
+            sc = dict(scope)
+            sc["\0tmp" + item] = item
+            lines, sc = self.bind_target(g.target, item, sc)
+            lets = "".join(l + "; " for l in lines)
+            self._nohoist += 1
+            try:
+                conds = [self.pure(c, sc) for c in g.ifs]
+            finally:
+                self._nohoist -= 1
+            saved, self._nohoist = self._nohoist, 0
+            self._frames.append([])
+            try:
+                body, flag = self.expr(node.elt, sc)
+            finally:
+                pend = self._frames.pop()
+                self._nohoist = saved
+            src = it if not conds else "(List.filter (fun %s => %s%s) %s)" % (item, lets, " && ".join(conds), it)
+            if not pend and flag != "bind":
+                return "(List.map (fun %s => %s%s) %s)" % (item, lets, body, src), ""
+            if flag != "bind":
+                body = self.r.monad["ok"].format(e=body)
+            for m, x in reversed(pend):
+                body = "(" + self.r.monad["bind"].format(m=m, x=x, k=body).replace("\n", " ") + ")"
+            return "(%s (fun %s => %s%s) %s)" % (self.r.monad["mapm"], item, lets, body, src), "bind"
         if isinstance(node, (ast.BoolOp, ast.IfExp)):
             if isinstance(node, ast.BoolOp):
                 is_and = isinstance(node.op, ast.And)
